@@ -1,5 +1,5 @@
 (* Dispatch.v — one entry point for the OCaml driver: property number -> functions. *)
-From Molt Require Import Model.Base Model.Tokenizer Check.C05 Check.C02 Check.C01 Check.C03 Check.C09.
+From Molt Require Import Model.Base Model.Tokenizer Check.C05 Check.C02 Check.C01 Check.C03 Check.C09 Check.C11 Check.C17 Check.C08 Check.C16.
 
 Record prop_fns := {
   pf_model_obs : term -> term;
@@ -21,8 +21,16 @@ Definition dispatch (p : N) : prop_fns :=
               pf_known := c01_known; pf_nontrivial := c01_nontrivial |}
   | 2%N => {| pf_model_obs := c02_model_obs; pf_spec_ok := c02_spec_ok;
               pf_known := c02_known; pf_nontrivial := c02_nontrivial |}
+  | 8%N => {| pf_model_obs := c08_model_obs; pf_spec_ok := c08_spec_ok;
+              pf_known := c08_known; pf_nontrivial := c08_nontrivial |}
+  | 16%N => {| pf_model_obs := c16_model_obs; pf_spec_ok := c16_spec_ok;
+               pf_known := c16_known; pf_nontrivial := c16_nontrivial |}
   | 9%N => {| pf_model_obs := c09_model_obs; pf_spec_ok := c09_spec_ok;
               pf_known := c09_known; pf_nontrivial := c09_nontrivial |}
+  | 11%N => {| pf_model_obs := c11_model_obs; pf_spec_ok := c11_spec_ok;
+               pf_known := c11_known; pf_nontrivial := c11_nontrivial |}
+  | 17%N => {| pf_model_obs := c17_model_obs; pf_spec_ok := c17_spec_ok;
+               pf_known := c17_known; pf_nontrivial := c17_nontrivial |}
   | _ => no_prop
   end.
 
